@@ -446,12 +446,10 @@ impl FixtureDatabase {
                 reanalyze_as_plugin.len()
             );
             for module_path in &reanalyze_as_plugin {
-                if let Some(content) = self.get_file_content(module_path) {
-                    debug!("Re-analyzing as plugin: {:?}", module_path);
-                    // Use analyze_file (not _fresh) to clean up old definitions
-                    // before recording new ones with is_plugin=true.
-                    self.analyze_file(module_path.clone(), &content);
-                }
+                debug!("Re-analyzing as plugin: {:?}", module_path);
+                // Cleans up old definitions before recording new ones with
+                // is_plugin=true (not the _fresh path).
+                self.reanalyze_file(module_path.clone());
             }
         }
 
@@ -665,9 +663,9 @@ impl FixtureDatabase {
             .unwrap_or_else(|_| file_path.to_path_buf());
         self.plugin_fixture_files.insert(canonical, ());
 
-        if let Ok(content) = std::fs::read_to_string(file_path) {
-            self.analyze_file(file_path.to_path_buf(), &content);
-        }
+        // An editor buffer of this file (editable install of the workspace itself) is newer
+        // than the content on disk and must not be replaced by it.
+        self.reanalyze_file(file_path.to_path_buf());
     }
 
     /// Load pytest plugins from a single dist-info directory's entry points.
@@ -1058,9 +1056,7 @@ impl FixtureDatabase {
                     let canonical = path.canonicalize().unwrap_or_else(|_| path.to_path_buf());
                     self.plugin_fixture_files.insert(canonical, ());
 
-                    if let Ok(content) = std::fs::read_to_string(path) {
-                        self.analyze_file(path.to_path_buf(), &content);
-                    }
+                    self.reanalyze_file(path.to_path_buf());
                 }
             }
         }
